@@ -40,6 +40,8 @@ type solver struct {
 	declVars []*Term         // declared variables (in order) for model extraction
 	stats    solverStats
 	sawError bool
+	failed   bool   // an error line or a dead process since the last clearFailed: the current path must be redone
+	lastErr  string // first error text seen (diagnostics)
 	inPath   bool
 	log      io.Writer // optional transcript
 	buf      strings.Builder
@@ -228,6 +230,10 @@ func (s *solver) check(extra *Term) satResult {
 		line, err := s.readLine()
 		if err != nil {
 			s.sawError = true
+			s.failed = true
+			if s.lastErr == "" {
+				s.lastErr = "solver process ended: " + err.Error()
+			}
 			s.stats.errors++
 			// solver died: restart; the caller's path scope is lost, so report unknown.
 			s.close()
@@ -241,6 +247,10 @@ func (s *solver) check(extra *Term) satResult {
 		}
 		if strings.HasPrefix(line, "(error") {
 			s.sawError = true
+			s.failed = true
+			if s.lastErr == "" {
+				s.lastErr = line
+			}
 			s.stats.errors++
 			continue
 		}
